@@ -307,6 +307,55 @@ def run(ctx):
                site="enqueue_task@accepted-means-queued")
     ctx.floor("C07.R3g", n3g, 1, "ThreadPoolExecutor::enqueue_task")
 
+    # ---------------------------------------------------------------- R7 the new-thread executor counts a task from acceptance to completion
+    ANT = "babylon::AlwaysUseNewThreadExecutor"
+    n7 = 0
+    for fn in fb.find(pred=lambda f: f.record == ANT and f.name == "invoke" and f.has_cfg()):
+        n7 += 1
+        ig = IG(fn, inline=nin)
+        live = ig.live_nodes()
+        ops = [a for a in A.atomic_ops(ig, live) if strip_cast(a.obj).get("n") == "_running"]
+        incs = [a.node for a in ops if a.op == "rmw" and a.name == "fetch_add" and a.node.frame.id == 0]
+        thr = [n for n in ig.ev_nodes() if n.id in live and n.ev["e"] == "ctor" and (n.ev.get("type") or "").startswith("std::thread")]
+        lam = None
+        for t_ in thr:
+            lam = L.lambda_of(ig, ig.rarg(t_, 0)) or lam
+        ok = len(incs) == 1 and len(thr) == 1 and ig.dominated_by(thr[0], incs) and lam is not None
+        if ok:
+            lig = IG(lam, inline=nin)
+            llive = lig.live_nodes()
+            lops = [a for a in A.atomic_ops(lig, llive) if strip_cast(a.obj).get("n") == "_running"]
+            decs = [a.node for a in lops if a.op == "rmw" and a.name == "fetch_sub"]
+            runs = [n for n in lig.ev_nodes() if n.id in llive and is_task_invoke(n)]
+            ok = len(decs) == 1 and bool(runs) and all(lig.dominated_by(decs[0], [r_]) for r_ in runs) and \
+                lig.postdominated_by(lig.entry, decs) and not any(a.name == "fetch_add" for a in lops) and \
+                all(A.releases(a.order) for a in lops if a.node in decs)
+        ctx.ob("C07.R7a", L.short(fn), ok, fn.loc,
+               "an accepted task must be counted in _running before its thread exists (increment in invoke, dominating the thread's "
+               "creation) and un-counted by the thread only after the task ran (release): counted later, join() / the destructor can "
+               "see 0 between acceptance and the first instruction of the thread and return with the task not yet run",
+               site="AlwaysUseNewThreadExecutor::invoke@counted-from-acceptance")
+    for fn in fb.find(pred=lambda f: f.record == ANT and f.name == "join" and f.has_cfg()):
+        n7 += 1
+        ig = IG(fn, inline=nin)
+        live = ig.live_nodes()
+        loads = [a for a in A.atomic_ops(ig, live) if a.op == "load" and strip_cast(a.obj).get("n") == "_running"]
+        lids = set(a.node.id for a in loads)
+
+        def zero(atom, pol, lab):
+            c = L.effective_cmp(atom, pol)
+            if c is None:
+                return False
+            return c[0] in ("==", "<=") and const_val(c[2]) == 0 and any(ig.ev_of(o) is not None and ig.ev_of(o).id in lids for o in ig.origins(c[1]))
+        ze = L.cond_edges(ig, zero, live)
+        ctx.ob("C07.R7b", L.short(fn), bool(loads) and all(A.acquires(a.order) for a in loads) and bool(ze) and
+               ig.exit.id not in ig.reach([ig.entry], removed_edges=ze), fn.loc,
+               "join() must return only on an acquire observation of _running == 0", site="AlwaysUseNewThreadExecutor::join@zero")
+    for fn in fb.find(pred=lambda f: f.record == ANT and f.kind == "dtor" and f.has_cfg()):
+        n7 += 1
+        ctx.ob("C07.R7c", L.short(fn), any(True for _ in L.fn_calls(fn, name="join")), fn.loc, "the destructor must join")
+    ctx.floor("C07.R7", n7, 3, "AlwaysUseNewThreadExecutor invoke / join / destructor")
+
     # ---------------------------------------------------------------- R4 execute / submit
     n4 = 0
     for fn in fb.find(pred=lambda f: f.record == "babylon::Executor" and f.name == "execute" and f.has_cfg() and not f.d.get("coroutine")):
